@@ -43,4 +43,41 @@ CCase == [desc |-> DescJson(cfg),
           field |-> cfg.field, hash |-> cfg.hash, garbage |-> 0, corrupt |-> k,
           expect |-> IF CertainUnsat(cfg, k) THEN "reject" ELSE "accept"]
 EmitCorrupt == phase = "emit" => PrintT(<<"REPLAY", ToJson(CCase)>>)
+
+(***************************************************************************)
+(* Fixed family: assertion layouts x corruptions of cells that ONLY an      *)
+(* assertion constrains (asserted cells in the exempt rows L-e+1 .. L-1):   *)
+(* singles, periodic and sequence assertions sharing first steps / strides  *)
+(* in every combination, so that every boundary-constraint group and its    *)
+(* divisor is exercised on its last instances.                              *)
+(***************************************************************************)
+LayoutBase(shapes, e, asserts) ==
+  [Empty EXCEPT !.width = Len(shapes), !.shapes = shapes, !.init = [j \in 1..Len(shapes) |-> IF shapes[j] = "pcol" THEN PerValue(0, 4, 3) ELSE j + 1],
+                !.pcyc = IF \E j \in 1..Len(shapes) : shapes[j] = "pcol" THEN <<4>> ELSE <<>>,
+                !.asserts = asserts, !.exemptions = e, !.log_len = 4, !.blowup = 8, !.fold = 4, !.rem = 7, !.queries = 24]
+Layouts == <<
+  <<Single(0, 0), SeqA(1, 0, 2, 8)>>,                       \* single and sequence sharing the first step
+  <<Single(0, 0), SeqA(1, 0, 4, 4), SeqA(2, 0, 2, 8)>>,     \* two strides sharing the first step
+  <<Single(0, 1), SeqA(1, 1, 2, 8)>>,
+  <<Single(1, 3), SeqA(0, 3, 4, 4), Single(2, 0)>>,
+  <<Single(0, 0), PerA(2, 0, 4)>>,                          \* periodic assertion on a periodic column
+  <<Single(0, 3), PerA(2, 3, 4), SeqA(1, 3, 4, 4)>>,
+  <<SeqA(0, 1, 2, 8), SeqA(1, 1, 4, 4), Single(2, 0)>>,
+  <<SeqA(0, 0, 8, 2), SeqA(1, 0, 2, 8)>> >>
+FixedShapes == <<"sum", "mul2", "pcol">>
+FixedCfgs == {LayoutBase(FixedShapes, e, Layouts[i]) : e \in {2, 3, 4}, i \in 1..Len(Layouts)}
+\* asserted cells in the exempt rows
+FreeAsserted(c) == {x \in AllAssertedCells(c) : x[2] > L(c) - c.exemptions}
+FixedCases ==
+  UNION { {<<c, [kind |-> "cell", col |-> x[1], row |-> x[2], delta |-> 1, idx |-> 0]>> : x \in AllAssertedCells(c)}
+          : c \in {f \in FixedCfgs : Supported(f)} }
+CaseOfPair(pr) ==
+  [desc |-> DescJson(pr[1]),
+   opts |-> [queries |-> pr[1].queries, blowup |-> pr[1].blowup, grind |-> 0, ext |-> 1, fold |-> pr[1].fold,
+             rem |-> pr[1].rem, cbatch |-> 0, dbatch |-> 0, parts |-> 1, hash_rate |-> 1],
+   field |-> "f64", hash |-> "blake3_256", garbage |-> 0, corrupt |-> pr[2],
+   expect |-> IF CertainUnsat(pr[1], pr[2]) THEN "reject" ELSE "accept"]
+FixedOk == \A pr \in FixedCases : CertainUnsat(pr[1], pr[2])
+StopAtInit == phase = "field"
+EmitFixed == (phase = "field") => \A pr \in FixedCases : PrintT(<<"FIXED", ToJson(CaseOfPair(pr))>>)
 =============================================================================
